@@ -814,6 +814,12 @@ def _run_algebra(case, ctx):
                 p.value(name, K2, A + sgn * A1, scale + scale_of(w1, U1), o, exact=True)
                 ctx.outcome([K2.weights] + list(K2.factor_matrices))
                 p.params(name, K, w, U, o, what="operand_mutated")
+                # depth 2: re-parameterise the sum in place; both operands must keep denoting their arrays
+                ok2, _ = p.call("ktensor.normalize", lambda: K2.normalize(), o + ">normalize")
+                if ok2:
+                    p.value(name, K, A, scale, o + ">normalize:operand", exact=False)
+                    if o != "alias":
+                        p.value(name, K1, A1, scale_of(w1, U1), o + ">normalize:operand2", exact=False)
         else:
             c = _SCALARS[v["c"]]
             name = "ktensor.__mul__" if op == "mul" else "ktensor.__rmul__"
@@ -825,6 +831,11 @@ def _run_algebra(case, ctx):
                 elif p.wf(name, K2, shape, R, var):
                     p.params(name, K2, c * w, U, var)
                     p.value(name, K2, c * A, scale * max(1.0, abs(c)), var, exact=True)
+                    # depth 2: re-parameterise the product in place; the operand must keep denoting A
+                    ok2, _ = p.call("ktensor.normalize", lambda: K2.normalize(), var + ">normalize")
+                    if ok2:
+                        p.value(name, K, A, scale, var + ">normalize:operand", exact=False)
+                        p.value(name, K2, c * A, scale * max(1.0, abs(c)), var + ">normalize:result", exact=False)
 
 
 # ---------------------------------------------------------------------------
